@@ -36,6 +36,8 @@ LEVEL_NOTE = ('Trusted: the substituter in this module (maximal [A-Za-z0-9_]+ ru
               'bespokeasm.assembler.preprocessor.Preprocessor; system layer uses only the CLI.')
 
 SYMS = ['AB', 'ABC', 'XAB', 'A_B', 'AB2', 'by', 'te', 'BA', 'ABAB']
+# legal symbol names that, were they not symbols, would lex as numbers (trailing-H hexadecimal, b-binary)
+NUMLIKE = ['ACH', 'b1', 'DEH', '0FH']
 LOOKALIKE = ['ABCD', 'XABC', 'AB_', '_AB', 'A', 'B', 'AB2X', 'bytes', 'tent', 'ABA', 'BAB', 'XA_B', 'bye', 'ABBA', 'AAB']
 SEPS = [' ', ', ', ' + ', '(', ')', ' - ', '+', ',', ' * ']
 WORD = re.compile(r'[A-Za-z0-9_]+')
@@ -67,6 +69,8 @@ def chain_depth(text, syms, stack=()):
 @st.composite
 def _symtab(draw, allow_cycle=True):
     names = draw(st.lists(st.sampled_from(SYMS), min_size=1, max_size=6, unique=True))
+    if draw(st.integers(0, 3)) == 0:
+        names.insert(draw(st.integers(0, len(names) - 1)), draw(st.sampled_from(NUMLIKE[:3])))
     syms = {}
     for i, n in enumerate(names):
         k = draw(st.integers(0, 9))
@@ -99,10 +103,15 @@ def _cases(draw, tier):
             toks.append(draw(st.sampled_from(SEPS)))
         return {'layer': 'api', 'syms': syms, 'order': names, 'line': ''.join(toks[:-1]), 'cycle': cyc}
     # system layer
-    srcs = {n: draw(st.sampled_from(['config', 'cli', 'define', 'define'])) for n in names}
+    srcs = {n: draw(st.sampled_from(['config', 'cli', 'define', 'define', 'incdefine'])) for n in names}
+    for n in names:
+        if n in NUMLIKE:
+            srcs[n] = draw(st.sampled_from(['config', 'cli']))     # defined from the start: never read as a number
     dup = None
     if draw(st.integers(0, 7)) == 0:
         dup = (draw(st.sampled_from(names)), draw(st.sampled_from(['config', 'cli', 'define'])))
+        if srcs[dup[0]] == 'incdefine' and dup[1] == 'define':
+            dup = None
     looks = draw(st.lists(st.sampled_from([w for w in LOOKALIKE if len(w) > 1]), min_size=1, max_size=4, unique=True))
     shadow = [n for n in names if srcs[n] == 'define' and draw(st.integers(0, 2)) == 0]
     lines = []
@@ -117,7 +126,7 @@ def _cases(draw, tier):
     empty = None
     if draw(st.integers(0, 3)) == 0 and not cyc:
         empty = {'name': 'EMPTYSYM', 'src': draw(st.sampled_from(['config', 'cli', 'define']))}
-    return {'layer': 'cli', 'empty': empty, 'syms': syms, 'order': names, 'srcs': srcs, 'dup': dup, 'looks': looks, 'shadow': shadow,
+    return {'layer': 'cli', 'incpad': draw(st.sampled_from([0, 0, 3, 9, 30])), 'empty': empty, 'syms': syms, 'order': names, 'srcs': srcs, 'dup': dup, 'looks': looks, 'shadow': shadow,
             'lines': lines, 'cycle': cyc}
 
 
@@ -238,6 +247,16 @@ def execute(case, ctx):
     want = bytearray()
     use_before = False
     cyc_used = False
+    extra_files = {}
+    inc = [n for n in case['order'] if srcs[n] == 'incdefine']
+    if inc:
+        # some definitions live in a file included first: they are "earlier" whatever their line numbers over there
+        extra_files['defs.asm'] = '; definitions\n' * case.get('incpad', 0) + ''.join(f'#define {n} {syms[n]}\n' for n in inc)
+        src.append('#include "defs.asm"')
+        for n in inc:
+            if n in defined:
+                expect_reject = True
+            defined[n] = syms[n]
     for kind, arg in case['lines']:
         if kind == 'define':
             src.append(f'#define {arg} {syms[arg]}')
@@ -269,9 +288,10 @@ def execute(case, ctx):
         src.append('.byte 7, 8 ' + empty['name'])
         want += bytes([7, 8])
     files = {'isa.json': json.dumps(cfg), 'main.asm': '\n'.join(src) + '\n'}
+    files.update(extra_files)
     argv = ['compile', '-c', 'isa.json', '-o', 'out.bin'] + argv_syms + ['main.asm']
     res = runner.run_forked(argv, files)
-    detail = {'source': files['main.asm'], 'config_symbols': conf, 'argv': argv, 'expected': 'rejected' if expect_reject else bytes(want).hex(),
+    detail = {'source': files['main.asm'], 'included': extra_files, 'config_symbols': conf, 'argv': argv, 'expected': 'rejected' if expect_reject else bytes(want).hex(),
               'run': res.brief()}
     findings = []
     if res.klass == 'timeout':
